@@ -107,11 +107,15 @@ impl FoldFSM {
         } = self.ctor_queue.current();
 
         if !back_traversal_started {
+            #[cfg(feature = "verif_probes")]
+            probe_unread_window(data_keeper, "before");
             ctor.maybe_before_end(data_keeper);
             ctor.after_start(data_keeper);
             apply_fold_lore_after(data_keeper, prev_lore, current_lore)?;
             self.ctor_queue.start_back_traverse();
         } else {
+            #[cfg(feature = "verif_probes")]
+            probe_unread_window(data_keeper, "after");
             ctor.after_end(data_keeper);
             self.ctor_queue.traverse_back();
 
@@ -129,6 +133,8 @@ impl FoldFSM {
     }
 
     pub(crate) fn meet_generation_end(&mut self, data_keeper: &DataKeeper) {
+        #[cfg(feature = "verif_probes")]
+        probe_unread_window(data_keeper, "generation_end");
         self.ctor_queue.finish(data_keeper);
         self.ctor_queue.end_back_traverse();
 
@@ -149,6 +155,19 @@ impl FoldFSM {
         let state = ExecutedState::Fold(fold_result);
         self.state_inserter.insert(data_keeper, state);
         self.state_handler.set_final_states(data_keeper);
+    }
+}
+
+/// Reports input states of the fold sub-trace window being left that the merged execution did not read.
+#[cfg(feature = "verif_probes")]
+fn probe_unread_window(data_keeper: &DataKeeper, site: &str) {
+    let prev = data_keeper.prev_slider().subtrace_len();
+    let current = data_keeper.current_slider().subtrace_len();
+    if prev > 0 || current > 0 {
+        air_log_targets::probe::hit(
+            "fold_window_unread_states",
+            format!("{site} prev={prev} current={current}"),
+        );
     }
 }
 
